@@ -210,4 +210,10 @@ func init() {
 	alphaLoop := `\t\tfor _, char := range sequence \{\n\t\t\tif !strings\.Contains\("ATUGCYRSWKMBDHVNZ", string\(char\)\) \{\n\t\t\t\treturn "", errors\.New\("Only letters ATUGCYRSWKMBDHVNZ are allowed for DNA/RNA\. Got letter: " \+ string\(char\)\)\n`
 	fire("C05", "last-letter-never-validated", sh, alphaLoop, byIndex("letterIndex+1 < len(sequence)"), "GUARD/alphabet test for DNA")
 	silent("C05", "letters-validated-by-index", sh, alphaLoop, byIndex("letterIndex < len(sequence)"))
+	pooledList := func(start string) string {
+		return "var seenHashesPool = sync.Pool{New: func() interface{} { return new([]string) }}\n\nfunc getConstructs(c chan string, constructSequences chan []Part) {\n${1}\tpooledHashes := seenHashesPool.Get().(*[]string)\n\texistingSeqhashes := " + start + "\n\tdefer func() {\n\t\t*pooledHashes = existingSeqhashes\n\t\tseenHashesPool.Put(pooledHashes)\n\t}()\n"
+	}
+	collectorHead := `(?s)func getConstructs\(c chan string, constructSequences chan \[\]Part\) \{\n(.*?)\tvar existingSeqhashes \[\]string\n`
+	fire("C09", "seen-hashes-list-pooled-with-its-content", cl, collectorHead, pooledList("*pooledHashes"), "STATE/pool-content")
+	silent("C09", "seen-hashes-list-pooled-and-cut-to-zero", cl, collectorHead, pooledList("(*pooledHashes)[:0]"))
 }
